@@ -3,11 +3,11 @@
 # Applies the seeded change to a scratch worktree of /repo (HEAD), runs the property's check against that copy
 # (VERIF_REPO), removes the worktree. /repo itself is not touched.
 id=$1; prop=$2; tier=${3:-quick}
-cd /verif
+cd ${VERIF_DIR:-/verif}
 scratch=$(mktemp -d /tmp/seedrun.XXXXXX); rmdir $scratch
 git -C /repo worktree add -q --detach $scratch HEAD || exit 2
 git -C $scratch apply /verif/seeded/$id/patch.diff || { echo "patch does not apply"; git -C /repo worktree remove --force $scratch; exit 2; }
 VERIF_REPO=$scratch VERIF_SEED=${VERIF_SEED:-1} python3 verify.py $prop --tier $tier 2>&1 | tail -8; rc=${PIPESTATUS[0]}
 git -C /repo worktree remove --force $scratch
-rm -f /verif/.build/go.*.mod /verif/.build/go.*.sum
+rm -f ${VERIF_DIR:-/verif}/.build/go.*.mod /verif/.build/go.*.sum
 echo "try_seeded $id $prop $tier exit=$rc"
